@@ -1,11 +1,141 @@
-import PyresampleModel.Model.Core
+import PyresampleModel.Model.Grid
 
 /-
-  C10 — model (stub: not built yet).
+  C10 — `AreaDefinition.__getitem__`, `combine_area_extents_vertical` / `concatenate_area_defs`,
+  `StackedAreaDefinition.append / squeeze / get_lonlats` (row bookkeeping), swath slicing.
 -/
+
 namespace PyresampleModel.C10
 
+open Grid
+
+/-- an area together with its `crop_offset` (row offset, column offset) -/
+structure Area where
+  g   : Grid
+  off : Nat × Nat
+deriving Repr, DecidableEq
+
+/-- `AreaDefinition.__getitem__` for unit-step slices.  `none` when the selection is empty on an
+axis (the code then builds an area of non-positive size; outside the property). -/
+def sliceArea (a : Area) (ys xs : PySlice) : Option Area :=
+  let g := a.g
+  let (ylo, yhi) := ys.indices g.h
+  let (xlo, xhi) := xs.indices g.w
+  if ylo < yhi ∧ xlo < xhi then
+    some {
+      g := { x0 := g.uplx + ((xlo : Rat) - 1/2) * g.dx,
+             y0 := g.uply - ((yhi : Rat) - 1/2) * g.dy,
+             x1 := g.uplx + ((xhi : Rat) - 1/2) * g.dx,
+             y1 := g.uply - ((ylo : Rat) - 1/2) * g.dy,
+             w := xhi - xlo, h := yhi - ylo },
+      off := (a.off.1 + ylo, a.off.2 + xlo) }
+  else none
+
+/-- `get_proj_vectors()[0]`: x coordinate of every column -/
+def xvec (g : Grid) : List Rat := (List.range g.w).map (fun (c : Nat) => g.projX (c : Rat))
+/-- `get_proj_vectors()[1]`: y coordinate of every row -/
+def yvec (g : Grid) : List Rat := (List.range g.h).map (fun (r : Nat) => g.projY (r : Rat))
+
+def absQ (q : Rat) : Rat := if 0 ≤ q then q else -q
+
+/-- `np.isclose(a, b)` with the default `rtol = 1e-5`, `atol = 1e-8` (the code before the `fix:` commit) -/
+def iscloseDefault (a b : Rat) : Bool := decide (absQ (a - b) ≤ 1 / 100000000 + 1 / 100000 * absQ b)
+
+/-- `np.isclose(a, b, rtol=0, atol=atol)` -/
+def isclose (a b atol : Rat) : Bool := decide (absQ (a - b) ≤ atol)
+
+def minQ (a b : Rat) : Rat := if a ≤ b then a else b
+
+/-- seam tolerance: a millionth of the smaller of the two heights -/
+def seamTol (a b : Grid) : Rat := 1 / 1000000 * minQ (absQ (a.y1 - a.y0)) (absQ (b.y1 - b.y0))
+
+/-- `combine_area_extents_vertical` + `concatenate_area_defs` (same CRS assumed); `none` = IncompatibleAreas -/
+def concatAreas (a b : Grid) : Option Grid :=
+  if a.w ≠ b.w then none else
+  if a.x0 = b.x0 ∧ a.x1 = b.x1 then
+    if isclose a.y0 b.y1 (seamTol a b) then some { a with y0 := b.y0, h := a.h + b.h }
+    else if isclose a.y1 b.y0 (seamTol a b) then some { a with y1 := b.y1, h := a.h + b.h }
+    else none
+  else none
+
+/-- the code before the `fix:` commit -/
+def concatAreasOld (a b : Grid) : Option Grid :=
+  if a.w ≠ b.w then none else
+  if a.x0 = b.x0 ∧ a.x1 = b.x1 then
+    if iscloseDefault a.y0 b.y1 then some { a with y0 := b.y0, h := a.h + b.h }
+    else if iscloseDefault a.y1 b.y0 then some { a with y1 := b.y1, h := a.h + b.h }
+    else none
+  else none
+
+/-- `StackedAreaDefinition.append` of a plain area -/
+def stackAppend (defs : List Grid) (d : Grid) : List Grid :=
+  if d.h = 0 then defs else
+  match defs.reverse with
+  | [] => [d]
+  | last :: revInit =>
+    match concatAreas last d with
+    | some m => revInit.reverse ++ [m]
+    | none => defs ++ [d]
+
+def stackAll (ds : List Grid) : List Grid := ds.foldl stackAppend []
+
+/-- `StackedAreaDefinition.get_lonlats(data_slice=None)` at the level of rows: (member index, local row) -/
+def stackedRows (defs : List Grid) : List (Nat × Nat) :=
+  (defs.zipIdx).flatMap (fun (d, k) => (List.range d.h).map (fun r => (k, r)))
+
+/-! ### driver -/
+open Wire
+
+def showGrid (g : Grid) : String :=
+  s!"{showRat g.x0} {showRat g.y0} {showRat g.x1} {showRat g.y1} {g.w} {g.h}"
+
+def slice? : List String → Option (PySlice × List String)
+  | a :: b :: rest => do
+    let a ← optInt? a; let b ← optInt? b
+    some ({ start := a, stop := b }, rest)
+  | _ => none
+
+/-- parse `k` (yslice, xslice) pairs -/
+def slicePairs? : Nat → List String → Option (List (PySlice × PySlice))
+  | 0, [] => some []
+  | 0, _ => none
+  | k + 1, toks => do
+    let (ys, t1) ← slice? toks
+    let (xs, t2) ← slice? t1
+    let rest ← slicePairs? k t2
+    some ((ys, xs) :: rest)
+
+def grids? : Nat → List String → Option (List Grid)
+  | 0, [] => some []
+  | 0, _ => none
+  | k + 1, toks => do
+    let (g, tl) ← grid? toks
+    let rest ← grids? k tl
+    some (g :: rest)
+
 def handle : List String → Option String
+  | "slice" :: rest => do
+    -- slice <grid> <k> (ystart ystop xstart xstop)*  → final area + crop_offset, or err:empty
+    let (g, tl) ← grid? rest
+    let k ← nat? (← tl.head?)
+    let chain ← slicePairs? k tl.tail
+    if g.w = 0 ∨ g.h = 0 then some "err:degenerate" else
+    let res := chain.foldl (fun (acc : Option Area) p => acc.bind (fun a => sliceArea a p.1 p.2)) (some ⟨g, (0, 0)⟩)
+    match res with
+    | none => some "err:empty"
+    | some a => some (showGrid a.g ++ s!" off {a.off.1} {a.off.2}")
+  | "concat" :: rest => do
+    let gs ← grids? 2 rest
+    match gs with
+    | [a, b] => match concatAreas a b with
+      | none => some "err:incompatible"
+      | some m => some (showGrid m)
+    | _ => none
+  | "stack" :: k :: rest => do
+    let k ← nat? k
+    let gs ← grids? k rest
+    let out := stackAll gs
+    some (" | ".intercalate (toString out.length :: out.map showGrid))
   | _ => none
 
 end PyresampleModel.C10
